@@ -41,6 +41,9 @@ func FuzzC15(f *testing.F) {
 			if which&0x80 != 0 {
 				c.IDs, c.IDs2, c.Bad = []string{s}, []string{valid}, 0
 			}
+			if which&0x40 != 0 {
+				c.IDs, c.IDs2, c.Bad = []string{s}, []string{s}, 0
+			}
 		case tg.single:
 			c.IDs, c.Bad = []string{s}, 0
 		case tg.lists == 2:
